@@ -172,7 +172,7 @@ fn pass<F: FnOnce(&mut vh::VShell, &mut Vec<(String, String)>)>(spec: &str, toks
 
 /// streams that may hang or abort are run in a forked child under a watchdog
 fn isolated(stream: &str) -> bool {
-    matches!(stream, "xenv" | "xall" | "plan" | "subst" | "xrange" | "head" | "plan1" | "bseq" | "aliasrt" | "srun" | "jobs")
+    matches!(stream, "xenv" | "xall" | "plan" | "subst" | "xrange" | "head" | "plan1" | "bseq" | "aliasrt" | "srun" | "jobs" | "envseq")
 }
 
 fn run_isolated(stream: &str, f: &[&str], timeout_ms: i32) -> String {
@@ -467,6 +467,31 @@ fn run_case(stream: &str, f: &[&str]) -> String {
                 tr.iter().map(|(l, s, vs)| format!("{}:{}:{}", hex(l), s, vs.iter().map(|x| hex(x)).collect::<Vec<_>>().join("/"))).collect::<Vec<_>>().join(",")
             }
         }),
+        "envseq" => {
+            // f0: initial environment `hexN=hexV,…`; f1: watched names; f2: lines; f3: start directory
+            for (k, _) in std::env::vars() { std::env::remove_var(k); }
+            for (k, v) in pairs_in(f[0]) { std::env::set_var(k, v); }
+            let _ = std::env::set_current_dir(unhex(f[3]));
+            let mut sh = vh::new_shell();
+            vh::set_real_builtins(true);
+            vh::set_pipeline_script(Some(HashMap::new()));
+            let names: Vec<String> = if f[1] == "[]" { vec![] } else { f[1].split(',').map(unhex).collect() };
+            let opt = |o: Option<String>| match o { Some(x) => hex(&x), None => "~".to_string() };
+            let mut outs: Vec<String> = vec![];
+            for hl in f[2].split(',') {
+                let line = unhex(hl);
+                let _ = vh::take_pipeline_envs();
+                let st = vh::run_command_line(&mut sh, &line);
+                let envs = vh::take_pipeline_envs();
+                let cwd = std::env::current_dir().map(|p| p.to_string_lossy().to_string()).unwrap_or_default();
+                let obs: Vec<String> = names.iter().map(|n| format!("{}.{}.{}",
+                    hex(&vh::expand_envs_in_token(&sh, &format!("${{{}}}", n))),
+                    opt(std::env::var(n).ok()), opt(sh.envs.get(n).cloned()))).collect();
+                let es: Vec<String> = envs.iter().map(|e| pairs_out(e)).collect();
+                outs.push(format!("{};{};{};{};{}", st, hex(&cwd), hex(&sh.previous_dir), obs.join(","), if es.is_empty() { "[]".to_string() } else { es.join("/") }));
+            }
+            outs.join("|")
+        }
         "jobs" => {
             let mut sh = vh::new_shell();
             vh::set_wait_events(Some(vec![]));
@@ -559,7 +584,7 @@ fn main() {
     let args: Vec<String> = std::env::args().collect();
     let inp = BufReader::new(File::open(&args[1]).expect("cases file"));
     let mut out = BufWriter::new(File::create(&args[2]).expect("out file"));
-    panic::set_hook(Box::new(|_| {}));
+    if std::env::var("CVH_SHOWPANIC").is_err() { panic::set_hook(Box::new(|_| {})); }
     // deterministic process environment: every variable a case needs is set by the case itself
     if let Ok(d) = std::env::var("CVH_CWD") {
         std::env::set_current_dir(&d).expect("CVH_CWD");
